@@ -104,15 +104,15 @@ def run(ctx):
     import gen_radii
     broken = []
     # 1. translator + proof
-    try:
-        gen_radii.generate()
+    terr = common.regen(ctx, ("radii",))
+    if terr:
+        for t in THEOREMS:
+            ctx.obligations.append((t, False))
+        broken.append(("translator", terr))
+    else:
         ok, info = prove(ctx, "MatidProps.C19", THEOREMS)
         if not ok:
             broken.append(("proof", info))
-    except gen_radii.TranslationError as e:
-        for t in THEOREMS:
-            ctx.obligations.append((t, False))
-        broken.append(("translator", {"error": str(e)}))
     # 2. correspondence: model (as generated) vs real function, exhaustive
     import matid.geometry as G
     if not any(k == "translator" for k, _ in broken):
